@@ -15,11 +15,11 @@ func init() {
 		DesignRef: "DESIGN.md §5 C38",
 		Level: "Decides that every relabel action constant is accepted by the YAML parser and executed by relabel() (whose default arm panics), that rules are applied in order and processing stops at the first rule that drops the set, that the keep/drop family returns false only from its own arms, that regular expressions are compiled fully anchored, " +
 			"and that the label builder records every non-empty Set in its override list and every Del in its deletion list on all paths (so a label deleted by one rule and set again by a later one is present, whatever its value).",
-		Note:     "Trusted: go/packages, go/types, go/cfg; rule tables in checker/c38.go; builder rules also run under -tags slicelabels / dedupelabels in the thorough tier.",
-		Covers:   "relabel.Action tables (UnmarshalYAML, relabel), ProcessBuilder, NewRegexp, labels.Builder.Set/Del/Get/Keep.",
-		NotCover: "the string results of replace / hashmod / labelmap (regex expansion, hashing), sortedness of the result.",
-		Run:      runC38,
-		Tags:     []string{"slicelabels", "dedupelabels"},
+		Note:           "Trusted: go/packages, go/types, go/cfg; rule tables in checker/c38.go; builder rules also run under -tags slicelabels / dedupelabels in the thorough tier.",
+		Covers:         "relabel.Action tables (UnmarshalYAML, relabel), ProcessBuilder, NewRegexp, labels.Builder.Set/Del/Get/Keep.",
+		NotCover:       "the string results of replace / hashmod / labelmap (regex expansion, hashing), sortedness of the result.",
+		Run:            runC38,
+		Tags:           []string{"slicelabels", "dedupelabels"},
 		MinObligations: 16,
 	})
 }
@@ -60,7 +60,9 @@ func runC38(c *eng.Ctx) {
 			return len(b) > 0 && nodeText(b[len(b)-1]) == "b.del = append(b.del, n)"
 		}, 1)
 		get := c.Fn(B + ".Get")
-		get.Dom("R3", eng.LoopOver(eng.Return("a.Value", func(g *eng.Graph, rs *ast.ReturnStmt) bool { return len(rs.Results) == 1 && eng.ExprString(rs.Results[0]) == "a.Value" })), eng.CallNamed("Contains"))
+		get.Dom("R3", eng.LoopOver(eng.Return("a.Value", func(g *eng.Graph, rs *ast.ReturnStmt) bool {
+			return len(rs.Results) == 1 && eng.ExprString(rs.Results[0]) == "a.Value"
+		})), eng.CallNamed("Contains"))
 		get.Dom("R3", eng.CallNamed("Contains"), p.FieldUse(B+".base")) // overrides, then deletions, then the base
 	}
 	if c.P.Tags != "" {
